@@ -32,10 +32,10 @@ BOUND = ('multipart: 4 base forms (boundaries BND, X, --a-; text+file parts, UTF
          'padding, close-delimiter variants, 62 header-block variants: no name, no colon, empty value, non-UTF-8, lower case, '
          'unicode line separators, unbalanced quotes ...), truncation at EVERY offset (honest Content-Length, lying Content-Length, '
          'chunked payload, cut chunked wire), EVERY single-byte deletion, EVERY single-byte substitution by 10 bytes; all header '
-         'blocks of <=4 (quick) / <=5 (thorough) tokens over an 11-token alphabet; all byte strings of length <=5 (quick) / <=6 '
+         'blocks of <=4 (quick) / <=5 (thorough) tokens over an 11-token alphabet; all byte strings of length <=5 (quick) / <=7 '
          '(thorough) over {CR,LF,-,X,:,a} behind 5 well-formed prefixes; JSON: 81 listed bodies (invalid, non-object, non-UTF-8, '
-         'UTF-16, deep nesting, huge numbers, oversized) and all strings <=3 (quick) / <=4 (thorough) over a 10-letter JSON alphabet; '
-         'urlencoded: 31 listed + all strings <=4/<=5 over {a,=,&,%,+,0xff}; every listed body also under the other content types '
+         'UTF-16, deep nesting, huge numbers, oversized) and all strings <=3 (quick) / <=5 (thorough) over a 10-letter JSON alphabet; '
+         'urlencoded: 31 listed + all strings <=4/<=6 over {a,=,&,%,+,0xff}; every listed body also under the other content types '
          '(32 spellings: multipart with/without/with another/quoted boundary, urlencoded, json, text/plain, none); garbage chunked wires; seeded random '
          'bytes and random multi-mutations; x framing {Content-Length full/1-byte/7-byte reads, chunked pieces all/1/5} x '
          'max_memfile_size {102400, 64, 16} (+max_body_size 40) x handler access {forms, files, POST, json, body, all, catch}.')
@@ -255,7 +255,7 @@ def _gen(tier, seed):
             yield from spread(body, _mp_ctype('X'), 'hdr-small-scope', 1 if quick else 2, touches=['forms', 'catch', 'post'])
     # ---- 3. small scope: byte strings behind well-formed prefixes
     prefixes = [b'', b'--X', b'--X\r\n', b'--X\r\n' + _cd(b'name="a"') + b'\r\n\r\n', b'--X\r\n' + _cd(b'name="a"') + b'\r\n\r\nv\r\n--X']
-    for n in range(0, (5 if quick else 6) + 1):
+    for n in range(0, (5 if quick else 7) + 1):
         for t in itertools.product(b'\r\n-X:a', repeat=n):
             s = bytes(t)
             for p in prefixes:
@@ -269,7 +269,7 @@ def _gen(tier, seed):
                 if len(body) < 3000 and ct == JSON_CTYPES[i % 2]:
                     yield _case(body, ct, FRAMINGS[(i + 1) % nf], 64 if i % 2 else 2048, touch, 'json-list-small-mem')
     jalpha = [b'{', b'}', b'[', b']', b'"', b':', b',', b'1', b'a', b'\xff']
-    for n in range(0, (3 if quick else 4) + 1):
+    for n in range(0, (3 if quick else 5) + 1):
         for t in itertools.product(jalpha, repeat=n):
             s = b''.join(t)
             i += 1
@@ -281,7 +281,7 @@ def _gen(tier, seed):
             for touch in ('forms', 'post', 'all', 'catch', 'files'):
                 i += 1
                 yield _case(body, ct, FRAMINGS[i % nf], DEFAULT_MEM if i % 3 else 64, touch, 'url-list')
-    for n in range(0, (4 if quick else 5) + 1):
+    for n in range(0, (4 if quick else 6) + 1):
         for t in itertools.product(b'a=&%+\xff', repeat=n):
             i += 1
             yield _case(bytes(t), 'application/x-www-form-urlencoded', FRAMINGS[i % 2], DEFAULT_MEM, 'forms', 'url-small-scope')
@@ -323,7 +323,7 @@ def _gen(tier, seed):
     goods = [(bd, ms.build(parts, bd, final_crlf=True)) for bd, parts in BASES.values()]
     soup = [b'\r\n', b'--', b'--X', b'--BND', b'\r\n--X', b'\r\n--BND--', b'Content-Disposition: form-data; name="a"', b'; filename="f"', b':', b'\r', b'\n',
             b'\r\n\r\n', b'"', b'\xff', b'x', b'-']
-    for _ in range(3000 if quick else 60000):
+    for _ in range(3000 if quick else 150000):
         r = rnd.random()
         if r < .25:
             body = bytes(rnd.randrange(256) for _ in range(rnd.choice([1, 5, 40, 300])))
@@ -356,8 +356,13 @@ def _gen(tier, seed):
 
 
 def gen_cases(tier, seed):
+    # different mutations can give the same bytes: such a case is generated once (the enumerated small scopes and the
+    # random part carry one fixed description each, so the runner's own distinct count already merges repeats there)
     seen = set()
     for c in _gen(tier, seed):
+        if c['desc'].endswith('small-scope') or c['desc'].startswith('rnd-'):
+            yield c
+            continue
         key = (len(c['body']), c['ctype'], c['framing'], c['pieces'], c['tail'], c['cl'], c['raw_wire'], c['mem'], c['max_body'], c['touch'])
         h = hashlib.blake2b(repr(key).encode('utf8', 'backslashreplace') + c['body'], digest_size=12).digest()
         if h in seen:
